@@ -974,8 +974,9 @@ Proof.
     destruct (validate c (mt s3)) eqn:E; cbn [vres_to_res]; try discriminate.
     intros [= <-]. exact E.
   - destruct (is_set s_ignore_errors c); [|discriminate]. cbv zeta.
-    destruct (add_env c s); try discriminate;
-    match goal with |- context [add_defaults c ?x] => destruct (add_defaults c x) end; discriminate.
+    destruct (resolve_pending c s); try discriminate;
+    (match goal with |- context [add_env c ?x] => destruct (add_env c x) end; try discriminate;
+     match goal with |- context [add_defaults c ?x] => destruct (add_defaults c x) end; discriminate).
   - discriminate.
 Qed.
 
